@@ -174,12 +174,12 @@ fn repeated_runs(rep: &Report, n: usize, runs: usize, seed: u64) {
 fn mk_ictx() -> InterpreterContext {
     let mut c = InterpreterContext::default();
     for (n, o) in BLABELS {
-        c.label_map.insert(n.to_string(), Label::new(LabelType::DATA, 0, o as usize));
+        c.label_map.insert(n.to_string(), Label::new(LabelType::DATA, 0, o as _));
     }
     for (n, o) in WLABELS {
-        c.label_map.insert(n.to_string(), Label::new(LabelType::DATA, 0, o as usize));
+        c.label_map.insert(n.to_string(), Label::new(LabelType::DATA, 0, o as _));
     }
-    c.label_map.insert("tgt".to_string(), Label::new(LabelType::CODE, 0, 3));
+    c.label_map.insert("tgt".to_string(), Label::new(LabelType::CODE, 0, 3 as _));
     c.fn_map.insert("fnp".to_string(), 5 as _);
     c
 }
@@ -349,7 +349,7 @@ fn asm_result(pp: &Preprocessor, src: &str) -> String {
             fns.sort();
             let mut und: Vec<String> = ctx.undefined_labels.iter().map(|(p, l)| format!("{}@{}", l, p)).collect();
             und.sort();
-            let mut map: Vec<(usize, usize)> = ctx.mapper.get_source_map().into_iter().collect();
+            let mut map: Vec<(usize, usize)> = ctx.mapper.get_source_map().into_iter().map(|(k, v)| (crate::util::AsIndex::ix(k), crate::util::AsIndex::ix(v))).collect();
             map.sort();
             format!("OK code={:?} data={:?} labels={:?} fns={:?} undefined={:?} map={:?}", out.code, out.data, labels, fns, und, map)
         }
